@@ -54,6 +54,8 @@ TraceTlvNext ==
                                 ELSE IF r.k \in {"ok", "err"} /\ realCalls + 1 > Len(section) \div 3 + 1
                                      THEN {<< "C03", "more-items-than-n/3+1", "tlv-next" >>}
                                 ELSE {})
+                \cup Sel("DRIFT", IF r.k = "err" /\ exp.k = "err" /\ r.e = exp.e /\ (r.a # exp.a \/ r.b # exp.b)
+                                  THEN {<< "DRIFT", "tlv-error-payload", r.e >>} ELSE {})
                 \cup Sel("C16", IF r.k = "ok" /\ (~r.own_eq \/ r.own_t # r.t \/ r.own_v # r.v \/ r.len # RlLen(r.v) \/ r.empty # (r.v = << >>))
                                 THEN {<< "C16", "owned-tlv-differs", "tlv-next" >>} ELSE {}),
                 Flag("C11", Len(section) > 0) \cup Flag("C03", Len(section) > 0) \cup Flag("C16", r.k = "ok"))
